@@ -230,7 +230,13 @@ class Backend:
         execop = Operation(EXEC_ID, OperationType.EXECUTION, ST.STARTED, execution_details=ExecutionDetails(self.input_payload))
         history = [execop] + [self.ops[i] for i in self.order]
         marker = ""
-        if self.page_size is not None and len(history) > self.page_size:
+        if self.empty_pages and self.invocation >= 2:
+            # "Due to payload size limitations we may have an empty operations list" (execution.py): the whole history, EXECUTION record included,
+            # is behind the marker of an EMPTY first page
+            marker = f"inv{self.invocation}"
+            self.pages[marker] = history
+            history = []
+        elif self.page_size is not None and len(history) > self.page_size:
             marker = f"inv{self.invocation}"
             self.pages[marker] = history[self.page_size:]
             history = history[:self.page_size]
